@@ -99,7 +99,8 @@ Definition parse_spec (s : list char) : res (comp * list char) :=
                 end
               else match assoc first printf_directives with
                    | Some _ => Ok (Dir first w j, s3)
-                   | None => Ok (Lit [first], s3)
+                   | None => if (first =? 123) || (first =? 91) || (first =? 40) then Err      (* %{ %[ %( : reserved *)
+                             else Ok (Lit [first], s3)
                    end
           end
       end
